@@ -87,6 +87,19 @@ def run(tier, replay_file=None):
             indep = [e for e in sd_dsl.ELEMENTS if e not in ("dl", "pl")]      # delay / pulse capture dt when their equation is built
             compare(R, nxt, lambda el, k, t: m.evaluate_equation(el, t), "the same model after its run specs were changed in place", stats, elements=indep)
             R.add("rerun_with_changed_runspecs")
+        if ok:
+            # observation point 5: a model that is EDITED into another member of the family (constants, initial value, table,
+            # every stock's equation re-assigned; s3 and s4 exchange their equations) equals that member's trajectory
+            other = next((c for c in trajs if c["rs"] == case["rs"] and c["P"] != case["P"]), None)
+            if other is not None:
+                m5, *_ = sd_dsl.build(case["P"], case["rs"], "e%d" % n, spelling=n)
+                if n % 2:
+                    m5.evaluate_equation("s4", times(case["rs"])[-1]); m5.evaluate_equation("s3", times(case["rs"])[-1])
+                sd_dsl.edit(m5, other["P"], spelling=n)
+                swap = {"s3": "s4", "s4": "s3"}
+                compare(R, other, lambda el, k, t: m5.evaluate_equation(swap.get(el, el), t), "a model edited in place into these parameters (s3/s4 exchanged)",
+                        stats, elements=sd_dsl.EDITABLE)
+                R.add("edited_in_place")
         if len(R.violations) >= 20:
             break
     R.cov["values_compared"] = stats.get("compared", 0)
